@@ -124,6 +124,7 @@ class Verifier(Interp):
         super().__init__(registry, prop_id)
         self.strict_index = True
         self.top_old = None
+        self.replay_ctx = None
         self.spec_extra = {}
         self.entry_uids = set()
         self.cover = {}
@@ -261,6 +262,11 @@ class Verifier(Interp):
                 self.covers.append(Oblig(f"{self.prop}/{fn_label}/cover/precondition-reachable", list(self.pc), z3.BoolVal(False), "cover", self.variant))
             self.top_old = snapshot(vars)
             self.entry_uids = _collect_uids(vars)
+            # replay context (pyvc/cmreplay.py): what a counter-model of an obligation of THIS path is evaluated on -- the arguments
+            # as they are at entry (snapshot), later the predicted result and the arguments as the path leaves them
+            pnames = {p_.arg for p_ in node.args.posonlyargs + node.args.args + node.args.kwonlyargs} | {x.arg for x in (node.args.vararg, node.args.kwarg) if x}
+            self.replay_ctx = None if closure_vars else dict(key=c.key, variant=self.variant, params={k_: v_ for k_, v_ in self.top_old.items() if k_ in pnames},
+                                                             live={k_: v_ for k_, v_ in vars.items() if k_ in pnames})
             if c.ghost_entry is not None:
                 c.ghost_entry(self, self.top_old)
             if c.lemmas:
@@ -296,6 +302,8 @@ class Verifier(Interp):
             for k0 in params:
                 post_vars.setdefault(k0, params[k0])
             post_vars["result"] = res
+            if self.replay_ctx is not None:
+                self.replay_ctx["result"] = res
             if c.ghost_exit is not None:
                 c.ghost_exit(self, post_vars, self.top_old)
             # must-fail canary: `False` must NOT be provable at a normal exit, i.e. the assumptions collected along the path
@@ -541,5 +549,6 @@ def discharge_all(obligs, timeout_ms, workers=16, cover_timeout_ms=3000):
         outs = [dict(done[uniq[j]]) for j, _ in jobs]
         for (j, ob), r in zip(jobs, outs):
             r["kind"], r["note"] = ob.kind, ob.note
+            r["_ob"] = ob  # in-process only (pyvc/cmreplay.py replays the counter-model of a `sat` instance on the real code)
             results.setdefault(ob.name, []).append(r)
     return results
